@@ -37,7 +37,7 @@ def all_names():
     return list(mrun.ALL) + DIAGRAMS
 
 
-def variant_args(name, variant, k):
+def variant_args(name, variant, k, axis=None):
     """Extra argv for metric `name` under a variant; k picks bin type / aggregator."""
     args = []
     kind = None
@@ -55,6 +55,8 @@ def variant_args(name, variant, k):
             args += ["-q", "0.1,0.9"]
         if name in ("obsfcst", "meteo", "timeseries"):
             args += ["-q", "0.1,0.9"]
+        if axis in ("obs", "fcst") and "-r" not in args:
+            args += ["-r", "-2.5,0,2.5,10"]
     if variant == "explicit-b":
         args += ["-b", BINS[k % len(BINS)]]
     if variant == "agg":
@@ -114,7 +116,7 @@ def run_item(ctx, item, paths):
     if item["variant"] in ("-hist", "-sort"):
         args += [item["variant"], "-r", "-5,0,5"]
     else:
-        args += variant_args(item["metric"], item["variant"], item.get("k", 0))
+        args += variant_args(item["metric"], item["variant"], item.get("k", 0), item["axis"])
     out = None
     if item["type"] not in ("text", "csv"):
         out = os.path.join(ctx.scratch, "out_%d.png" % os.getpid())
